@@ -22,6 +22,8 @@ type FieldAccess struct {
 	Kind string
 	// Inner reports an access to the collection held in the field rather than to the field word.
 	Inner bool
+	// Depth: 0 the field word, 1 the collection held in it, 2 a collection nested in that one, ...
+	Depth int
 	// Base is the value whose field is accessed.
 	Base ssa.Value
 	Type types.Type
@@ -54,8 +56,16 @@ func isSyncType(t types.Type) bool {
 // the module. Accesses to fields of sync/atomic types are skipped.
 func FieldAccesses(fn *ssa.Function) []FieldAccess {
 	var out []FieldAccess
+	depth := 0
 	add := func(id FieldID, in ssa.Instruction, write bool, kind string, inner bool, base ssa.Value, t types.Type) {
-		out = append(out, FieldAccess{Field: id, Fn: fn, Instr: in, Write: write, Kind: kind, Inner: inner, Base: base, Type: t})
+		d := 0
+		if inner {
+			d = depth
+			if d == 0 {
+				d = 1
+			}
+		}
+		out = append(out, FieldAccess{Field: id, Fn: fn, Instr: in, Write: write, Kind: kind, Inner: inner, Depth: d, Base: base, Type: t})
 	}
 	var useOfLoaded func(id FieldID, base ssa.Value, v ssa.Value, ft types.Type, seen map[ssa.Value]bool)
 	useOfLoaded = func(id FieldID, base ssa.Value, v ssa.Value, ft types.Type, seen map[ssa.Value]bool) {
@@ -72,6 +82,32 @@ func FieldAccesses(fn *ssa.Function) []FieldAccess {
 			case *ssa.Lookup:
 				if x.X == v {
 					add(id, x, false, "map-lookup", true, base, ft)
+					// a nested collection (map of maps): operations on the inner map are accesses to the
+					// same guarded structure, also through a local name it was copied to
+					inner := ssa.Value(x)
+					if x.CommaOk {
+						inner = nil
+						if x.Referrers() != nil {
+							for _, r2 := range *x.Referrers() {
+								if e, ok := r2.(*ssa.Extract); ok && e.Index == 0 {
+									inner = e
+								}
+							}
+						}
+					}
+					if inner != nil {
+						switch inner.Type().Underlying().(type) {
+						case *types.Map, *types.Slice:
+							depth++
+							useOfLoaded(id, base, inner, ft, seen)
+							depth--
+						}
+					}
+				}
+			case *ssa.Phi:
+				// the inner map merged with a freshly made one (lazy initialisation)
+				if _, isMap := x.Type().Underlying().(*types.Map); isMap {
+					useOfLoaded(id, base, x, ft, seen)
 				}
 			case *ssa.Range:
 				if x.X == v {
@@ -131,7 +167,9 @@ func FieldAccesses(fn *ssa.Function) []FieldAccess {
 			case *ssa.UnOp:
 				if x.Op == token.MUL {
 					add(id, x, false, "load", false, base, ft)
+					depth = 1
 					useOfLoaded(id, base, x, ft, map[ssa.Value]bool{})
+					depth = 0
 				}
 			case *ssa.FieldAddr, *ssa.DebugRef:
 				// nested struct: the inner field is its own access
